@@ -623,5 +623,172 @@ func init() {
 		}
 		fmt.Fprintf(b, "/-- what the value returned by Config.GetTlsConfig is bound to -/\ndef getTlsConfigResultOrigin : List String := %s\n", leanStrList05(origin))
 		fmt.Fprintf(b, "/-- true iff every GetTlsConfig call hands out a new *tls.Config (new object in Config.GetTlsConfig, passed on by the Client/Server wrappers) -/\ndef getTlsConfigFreshPerCall : Bool := %v\n\n", freshBase && wrappers)
+
+		// ---- 9. Config.addCaCertificates: what the pools handed to crypto/tls (RootCAs / ClientCAs) are made from
+		c05poolFacts(b, certF)
 	})
+}
+
+// c05poolFacts: the trust anchors of the pools assigned to RootCAs / ClientCAs in Config.addCaCertificates.
+//   caPoolInit    what the pool variable(s) are initialised / re-assigned with (sorted, distinct); a variable that is
+//                 not declared inside the function shows as "<outer> name"
+//   caPoolAdds    every call that can put certificates into such a pool: its methods called, and calls that receive it
+//   caPoolPemFrom what the argument(s) of AppendCertsFromPEM are bound to
+//   caPoolStartsEmpty  the pool is a function-local x509.NewCertPool() to which only the PEM returned by
+//                 m.GetCaCertificates() is appended: the pool holds the configured CA certificates and nothing else
+func c05poolFacts(b *strings.Builder, certF *ast.File) {
+	fd := findFunc(certF, "Config", "addCaCertificates")
+	if fd == nil || fd.Body == nil {
+		fail("C05: Config.addCaCertificates not found")
+		return
+	}
+	rhsOf := func(as *ast.AssignStmt, i int) ast.Expr {
+		if len(as.Rhs) == len(as.Lhs) {
+			return as.Rhs[i]
+		}
+		if len(as.Rhs) == 1 && i == 0 {
+			return as.Rhs[0]
+		}
+		return nil
+	}
+	pools := map[string]bool{}
+	shapeOK := true
+	nAssigned := 0
+	c05walk(fd.Body, func(as *ast.AssignStmt, g []string) {
+		for i, l := range as.Lhs {
+			if !(c05selIs(l, "RootCAs") || c05selIs(l, "ClientCAs")) {
+				continue
+			}
+			nAssigned++
+			if id, ok := rhsOf(as, i).(*ast.Ident); ok {
+				pools[id.Name] = true
+			} else {
+				shapeOK = false
+				pools["<expr> "+c05src(rhsOf(as, i))] = true
+			}
+		}
+	})
+	if nAssigned == 0 {
+		fail("C05: addCaCertificates assigns neither RootCAs nor ClientCAs")
+	}
+	// close under aliasing and collect what the pool variables are bound to
+	inits := map[string]bool{}
+	declared := map[string]bool{}
+	for changed := true; changed; {
+		changed = false
+		bind := func(name string, tok token.Token, rhs ast.Expr) {
+			if !pools[name] {
+				return
+			}
+			if tok == token.DEFINE || tok == token.VAR {
+				declared[name] = true
+			}
+			if rhs == nil {
+				return
+			}
+			if id, ok := rhs.(*ast.Ident); ok && id.Name != "nil" {
+				if !pools[id.Name] {
+					pools[id.Name] = true
+					changed = true
+				}
+				return
+			}
+			inits[c05src(rhs)] = true
+		}
+		c05walk(fd.Body, func(as *ast.AssignStmt, g []string) {
+			for i, l := range as.Lhs {
+				if id, ok := l.(*ast.Ident); ok {
+					bind(id.Name, as.Tok, rhsOf(as, i))
+				}
+			}
+		})
+		ast.Inspect(fd.Body, func(x ast.Node) bool {
+			if vs, ok := x.(*ast.ValueSpec); ok {
+				for i, nm := range vs.Names {
+					var rhs ast.Expr
+					if i < len(vs.Values) {
+						rhs = vs.Values[i]
+					}
+					bind(nm.Name, token.VAR, rhs)
+				}
+			}
+			return true
+		})
+	}
+	for name := range pools {
+		if !strings.HasPrefix(name, "<expr> ") && !declared[name] {
+			inits["<outer> "+name] = true
+			shapeOK = false
+		}
+	}
+	adds := map[string]bool{}
+	pemArgs := map[string]bool{}
+	ast.Inspect(fd.Body, func(x ast.Node) bool {
+		call, ok := x.(*ast.CallExpr)
+		if !ok {
+			return true
+		}
+		var args []string
+		for _, a := range call.Args {
+			args = append(args, c05src(a))
+		}
+		if sel, ok := call.Fun.(*ast.SelectorExpr); ok {
+			if id, ok := sel.X.(*ast.Ident); ok && pools[id.Name] {
+				adds[sel.Sel.Name+"("+strings.Join(args, ", ")+")"] = true
+				if sel.Sel.Name == "AppendCertsFromPEM" {
+					for _, a := range call.Args {
+						if aid, ok := a.(*ast.Ident); ok {
+							pemArgs[aid.Name] = true
+						} else {
+							pemArgs["<expr> "+c05src(a)] = true
+						}
+					}
+				}
+				return true
+			}
+		}
+		for _, a := range call.Args {
+			if id, ok := a.(*ast.Ident); ok && pools[id.Name] {
+				adds["<passed to> "+c05src(call)] = true
+			}
+		}
+		return true
+	})
+	pemFrom := map[string]bool{}
+	for name := range pemArgs {
+		if strings.HasPrefix(name, "<expr> ") {
+			pemFrom[name] = true
+			continue
+		}
+		n := 0
+		c05walk(fd.Body, func(as *ast.AssignStmt, g []string) {
+			for i, l := range as.Lhs {
+				if id, ok := l.(*ast.Ident); ok && id.Name == name {
+					if r := rhsOf(as, i); r != nil {
+						pemFrom[c05src(r)] = true
+						n++
+					}
+				}
+			}
+		})
+		if n == 0 {
+			pemFrom["<outer> "+name] = true
+		}
+	}
+	keys := func(m map[string]bool) []string {
+		var out []string
+		for k := range m {
+			out = append(out, k)
+		}
+		sort.Strings(out)
+		return out
+	}
+	initL, addL, pemL := keys(inits), keys(adds), keys(pemFrom)
+	startsEmpty := shapeOK && len(initL) == 1 && initL[0] == "x509.NewCertPool()" &&
+		len(addL) == 1 && strings.HasPrefix(addL[0], "AppendCertsFromPEM(") &&
+		len(pemL) == 1 && pemL[0] == "m.GetCaCertificates()"
+	fmt.Fprintf(b, "/-- cert.go Config.addCaCertificates: what the pool(s) assigned to RootCAs / ClientCAs are initialised with (\"<outer> x\" = not declared in the function) -/\ndef caPoolInit : List String := %s\n", leanStrList05(initL))
+	fmt.Fprintf(b, "/-- every call in it that can put certificates into such a pool -/\ndef caPoolAdds : List String := %s\n", leanStrList05(addL))
+	fmt.Fprintf(b, "/-- what the PEM given to AppendCertsFromPEM is bound to -/\ndef caPoolPemFrom : List String := %s\n", leanStrList05(pemL))
+	fmt.Fprintf(b, "/-- true iff the pool is a function-local x509.NewCertPool() that receives only the PEM returned by m.GetCaCertificates(): it holds the configured CA certificates and no other trust anchor -/\ndef caPoolStartsEmpty : Bool := %v\n\n", startsEmpty)
 }
